@@ -30,7 +30,8 @@ class A(Adapter):
     has_observer = True
 
     def configs(self):
-        base = [cfg("r12c12", True, r=12, c=12, tl=None), cfg("r4c7", True, r=4, c=7, tl=None), cfg("r7c4", r=7, c=4, tl=None),
+        base = [cfg("r12c12", True, r=12, c=12, tl=None), cfg("r4c7", True, r=4, c=7, tl=None),  # r7c4: the transposed board (same number of cells, other layout) right after it
+                cfg("r7c4", True, r=7, c=4, tl=None),
                 cfg("r3c3", r=3, c=3, tl=None),
                 cfg("r4c3", True, r=4, c=3, tl=None)]  # tiny board with a Hamiltonian cycle: filling the whole board is reachable
         return cross_tl(base, [1, 2, 3, 7])
